@@ -318,6 +318,7 @@ prop('C14', [
     memo.r_inval,
     raw.r_raw,
     formats.r_bound,
+    models.r_declare,
 ],
     'vars/_level_to_var written as inverse entries and the terminal moved '
     'below each new variable on every path of add_var; undeclare_vars '
@@ -370,6 +371,7 @@ prop('C17', [
     reord.r_context,
     handles.r_parser,
     raw.r_tempdir,
+    models.r_pickle_corrupt,
 ],
     'on every path of every function of dd.bdd, dd.autoref and dd._copy '
     'that writes manager state, no user-facing rejection (explicit raise '
@@ -475,7 +477,8 @@ MODEL_TEXT = {
            'nothing quantified or nothing renamed.',
     'C14': ' Models: `add_var` for every (name, level) request on five '
            'managers; `undeclare_vars` for every subset on five managers; '
-           '`BDD(levels)`; `copy_vars`.',
+           '`BDD(levels)`; `copy_vars`; `declare` of `dd.bdd` and '
+           '`dd.autoref` for lists with new, declared and repeated names.',
     'C15': ' Models: `MDD.find_or_add`, `MDD._top_cofactor`, `MDD.ite` '
            'and `MDD.apply` on a diagram with a three-valued above a '
            'two-valued variable (710 calls against the values over all '
